@@ -834,6 +834,15 @@ func isT[T any](v interface{}) bool {
 	return ok
 }
 `}}},
+		// one value returned from two different blocks
+		mk("tworeturns", `	t := a*3 + b
+	if a > b {
+		return t, x
+	}
+	if b > 2 {
+		return t, x
+	}
+	return a, x + y`),
 		// comparison and addition on operands of a DECLARED integer / string type
 		mk("declaredtypes", `	c := lvl(a)
 	d := lvl(b)
